@@ -2,6 +2,7 @@
 Helper lemmas for C05 (Model/Graph.lean): the overflow gate and the control flow of `pack_objects`.
 -/
 import FontVerif.Model.Graph
+import FontVerif.Lemmas.GraphSort
 set_option linter.unusedVariables false
 set_option linter.unusedSimpArgs false
 namespace FontVerif.Graph
@@ -186,5 +187,86 @@ theorem packObjects_gate (g g' : Graph) (fresh fresh' : List Nat)
     | true =>
       simp only [Bool.not_true, Bool.false_eq_true, ↓reduceIte] at h
       right; exact packLoop_gate _ _ _ _ _ h
+
+/-! ### the order a successful pack leaves behind comes straight out of a sort -/
+
+/-- the order starts with the root and is closed under the links of the graph's objects -/
+def SortedOut (g : Graph) : Prop :=
+  (∃ tail, g.order = g.root :: tail) ∧ ∀ id ∈ g.order, ∀ l ∈ (g.obj id).links, l.target ∈ g.order
+
+theorem sortKahn_sortedOut (g g' : Graph) (hn : 1 < g.nodes.length) (h : sortKahn g = some g') :
+    SortedOut g' ∧ g'.objects = g.objects := by
+  obtain ⟨ho, hr, ht, hc⟩ := sortKahn_spec g g' hn h
+  refine ⟨⟨by rw [hr]; exact ht, ?_⟩, ho⟩
+  intro id hid l hl
+  rw [obj_congr g g' ho] at hl
+  exact hc id hid l hl
+
+theorem sortShortest_sortedOut (g g' : Graph) (h : sortShortest g = some g') :
+    SortedOut g' ∧ g'.objects = g.objects := by
+  obtain ⟨ho, hr, ht, hc⟩ := sortShortest_spec g g' h
+  refine ⟨⟨by rw [hr]; exact ht, ?_⟩, ho⟩
+  intro id hid l hl
+  rw [obj_congr g g' ho] at hl
+  exact hc id hid l hl
+
+theorem basicSort_sortedOut (g g' : Graph) (ok : Bool) (hn : 1 < g.nodes.length)
+    (h : basicSort g = some (ok, g')) : SortedOut g' := by
+  unfold basicSort at h
+  simp only [Option.bind_eq_bind, Option.bind_eq_some_iff] at h
+  obtain ⟨g1, hk, ov, hov, h⟩ := h
+  cases ov with
+  | false =>
+    bsimp at h
+    obtain ⟨_, rfl⟩ := h
+    exact (sortKahn_sortedOut g g1 hn hk).1
+  | true =>
+    bsimp at h
+    obtain ⟨g2, hs, ov2, hov2, h1, h2⟩ := h
+    subst h2
+    exact (sortShortest_sortedOut g1 g2 hs).1
+
+theorem packLoop_sortedOut (fuel : Nat) (g g' : Graph) (fresh fresh' : List Nat) (hs : SortedOut g)
+    (h : packLoop fuel g fresh = some (true, g', fresh')) : SortedOut g' := by
+  induction fuel generalizing g fresh with
+  | zero => simp [packLoop] at h
+  | succ n ih =>
+    unfold packLoop at h
+    simp only [Option.bind_eq_bind, Option.bind_eq_some_iff] at h
+    obtain ⟨ovs, hov, h⟩ := h
+    by_cases he : ovs.isEmpty
+    · simp only [he, ↓reduceIte, Option.some.injEq, Prod.mk.injEq, true_and] at h
+      obtain ⟨rfl, rfl⟩ := h
+      exact hs
+    · simp only [he, Bool.false_eq_true, ↓reduceIte, Option.bind_eq_some_iff] at h
+      obtain ⟨⟨ch, g1, fr1⟩, hiso, h⟩ := h
+      cases ch with
+      | false => simp at h
+      | true =>
+        bsimp at h
+        obtain ⟨g2, hs2, h⟩ := h
+        exact ih g2 fr1 (sortShortest_sortedOut _ g2 hs2).1 h
+
+theorem packObjects_sortedOut (g g' : Graph) (fresh fresh' : List Nat) (hn : 1 < g.nodes.length)
+    (h : packObjects g fresh = some (true, g', fresh')) : SortedOut g' := by
+  unfold packObjects at h
+  simp only [Option.bind_eq_bind, Option.bind_eq_some_iff] at h
+  obtain ⟨⟨ok, g1⟩, hb, h⟩ := h
+  cases ok with
+  | true =>
+    simp only [↓reduceIte, Option.some.injEq, Prod.mk.injEq, true_and] at h
+    obtain ⟨rfl, rfl⟩ := h
+    exact basicSort_sortedOut g g1 true hn hb
+  | false =>
+    simp only [Bool.false_eq_true, ↓reduceIte, Option.bind_eq_some_iff] at h
+    obtain ⟨⟨b, g2, fr2⟩, ha, g3, hs, ov, hov, h⟩ := h
+    cases ov with
+    | false =>
+      simp only [Bool.not_false, ↓reduceIte, Option.some.injEq, Prod.mk.injEq, true_and] at h
+      obtain ⟨rfl, rfl⟩ := h
+      exact (sortShortest_sortedOut _ g3 hs).1
+    | true =>
+      simp only [Bool.not_true, Bool.false_eq_true, ↓reduceIte] at h
+      exact packLoop_sortedOut _ _ _ _ _ (sortShortest_sortedOut _ g3 hs).1 h
 
 end FontVerif.Graph
